@@ -8,6 +8,7 @@ use vcore::gen::op::*;
 use vcore::gen::rng::Rng;
 use vcore::gen::schema::*;
 use vcore::report::*;
+use vcore::sexp::{st, tagged};
 
 /// adversarial but semantically neutral rewriting of a document text
 fn decorate(rng: &mut Rng, text: &str) -> String {
@@ -16,6 +17,7 @@ fn decorate(rng: &mut Rng, text: &str) -> String {
         "# comment with \"quotes\", a \\ backslash and ünïcode ✓ 𝄞",
         "#\ttab\tseparated",
         "# looks like an escape: \\u{41} \\n \\x41 {{ }}",
+        "# zero\u{200b}width, combining e\u{301}, del \u{7f}, soft\u{ad}hyphen, rtl \u{202e}x, private \u{e000}, '\"'",
     ];
     let mut out = String::new();
     for line in text.lines() {
@@ -218,6 +220,49 @@ pub fn run(a: &Args) -> i32 {
                             if !flattened && got != want_keys {
                                 rep.fail("response-of-another-operation", case(json!({"operation": op.name, "expected": want_keys, "got": got})));
                             }
+                        }
+                    }
+                    // ---- the literal TOKENS of the two constants (Model/StrLit.lean, Proofs/C05StrLit.lean): the value rustc's
+                    // lexer gives the emitted token must be the source text (`litValue`), the token must spell it character
+                    // by character (`IsEscapeOf`), and the model of proc_macro2's printer must write the same token
+                    if let (RealOutcome::Ok(tokens), true) = (&res.real, ctx.model.available()) {
+                        match vcore::extract::const_literal_tokens(tokens) {
+                            Ok(lits) => {
+                                for (mi, m) in mods.iter().enumerate() {
+                                    let oi = expected.unwrap_or(mi);
+                                    for (cname, want) in [("QUERY", text.as_str()), ("OPERATION_NAME", doc.ops[oi].name.as_str())] {
+                                        let tok = lits.iter().find(|(mn, cn, _)| *mn == m.mod_name && cn == cname).map(|x| x.2.clone());
+                                        let tok = match tok {
+                                            Some(t) => t,
+                                            None => {
+                                                rep.disagree(json!({"what": "no string-literal token for the constant", "constant": cname, "module": m.mod_name, "file": "c05.rs"}));
+                                                continue;
+                                            }
+                                        };
+                                        rep.count("literal-token:checked");
+                                        if tok.contains("\\u{") || tok.contains("\\x") { rep.count("literal-token:with-unicode-or-hex-escape"); }
+                                        let reply = ctx.model.ask(&tagged("strlit", vec![st(&tok), st(want)]));
+                                        if reply.head() == Some("ok") {
+                                            rep.traces_validated += 1;
+                                        } else if reply.items().get(1).and_then(|x| x.head()) == Some("value") || reply.items().get(1).and_then(|x| x.head()) == Some("rejected") {
+                                            // rustc would read another value (or refuse the literal): the constant is not the source text
+                                            rep.fail("query-constant-token-does-not-denote-the-source", case(json!({"constant": cname, "token": tok, "model": reply.render()})));
+                                        } else {
+                                            rep.disagree(json!({"what": "the literal token is not a character-by-character spelling of the source (StrLit.IsEscapeOf)", "constant": cname, "token": tok, "model": reply.render()}));
+                                        }
+                                        // the printer: proc_macro2's escape_utf8 with the Unicode tables of this toolchain
+                                        let us: String = { let mut v: Vec<char> = want.chars().filter(|c| c.escape_debug().to_string().starts_with("\\u")).collect(); v.sort(); v.dedup(); v.into_iter().collect() };
+                                        let printed = ctx.model.ask(&tagged("strlit-print", vec![st(want), st(&us)]));
+                                        let model_tok = printed.items().get(1).and_then(|x| x.as_str()).unwrap_or("").to_string();
+                                        if model_tok == tok {
+                                            rep.traces_validated += 1;
+                                        } else {
+                                            rep.disagree(json!({"what": "StrLit.stringToken (model of proc_macro2's Literal::string) prints another token", "constant": cname, "token": tok, "model": model_tok}));
+                                        }
+                                    }
+                                }
+                            }
+                            Err(e) => rep.disagree(json!({"what": "the emitted tokens could not be parsed for the literal tokens", "error": e, "file": "c05.rs"})),
                         }
                     }
                     // compile a subset: library tokens (CLI form)
